@@ -284,6 +284,13 @@ func genWellformed(r *simkit.RNG, st *genState) Archive {
 	repeats := r.Chance(1, 2)
 	var used [][]string
 	tok := 0
+	if r.Chance(1, 10) {
+		// an entry for the top directory itself, as "tar -C dir ." writes it
+		e := Entry{Name: simkit.Pick(r, []string{"./", ".", "/", "./."}), Type: "dir", Mode: simkit.Pick(r, []int64{0o755, 0o750, 0o700, 0o711, 0o775})}
+		entryTimes(r, &e)
+		st.m.Apply(model.DEntry{Name: e.Name, Type: typeFlags[e.Type], Mode: e.Mode})
+		ar.Entries = append(ar.Entries, e)
+	}
 	for len(ar.Entries) < n {
 		var e Entry
 		var p []string
